@@ -140,6 +140,20 @@ def explore(ctx, n, compare=True):
         ctx.corr_break("Pipeline:run-raised", {"n": len(base)}, "model never raises", bt["error"] or vt["error"])
         return base, variants
     statement(ctx, bt, vt, variants)
+    # the configuration that keeps atom maps (`remove_aam = False`): the map-numbered spellings go through every stage with
+    # their maps on — markers, tokens and compositions must be read the same way (traced, not compared with the model)
+    from synrbl import Balancer
+
+    kb = Balancer(n_jobs=12)
+    kb.remove_aam = False
+    mv = [v for v in variants if v[1] == "maps"]
+    if mv:
+        kt = pipeline.traced_run([v[2] for v in mv], balancer=kb)
+        ctx.count("keep-maps-configuration-rows", len(mv))
+        if kt["out"] is None:
+            ctx.violation("variant-run-lost-rows", {"configuration": "remove_aam=False"}, str(kt["error"]), "balancing.py")
+        else:
+            statement(ctx, bt, kt, [(i, "maps-kept", t) for i, _, t in mv])
     # the same rows inside ONE batch processed by ONE worker (n_jobs=1: per-batch memos are really shared between rows), behind
     # context rows that contain the same molecule strings with other multiplicities (A.A>>B, A>>B.B): the outcome of a row must
     # not depend on what the batch contained before it
